@@ -310,3 +310,4 @@ M("C10", "C10.partial", _G, "p=['[' a=NUMBER ']' { self.require_probability(a) }
 M("C10", "C10.groups", _G, "    | 'require' \"monitor\" e=expression n=['as' a=scenic_require_stmt_name { a }] {", "    | 'require' \"monitor\" e=expression n=['as' scenic_require_stmt_name] {", "c10-require-monitor-name-list")
 M("C10", "C10.partial", _CO, "        if node.orelse and not node.except_handlers:\n", "        if False:\n", "c10-try-else-without-except")
 M("C10", "C10.children", _CO, "            value = ast.Constant(None) if node.value is None else self.visit(node.value)", "            value = ast.Constant(None) if node.value is None else node.value", "c10-return-value-unvisited")
+M("C04", "C04.polarity", _R, "                    obj.occupiedSpace.mesh.vertices - obj_candidate_point, axis=1\n                )\n            )\n\n            # Compute the minimum distance from the region to this point.", "                    obj.occupiedSpace.mesh.vertices - obj.position, axis=1\n                )\n            )\n\n            # Compute the minimum distance from the region to this point.", "c04-circumradius-other-anchor")
